@@ -251,7 +251,13 @@ class Computed:
                         # if yes, compare old and new values for all
                         # tracked observables on this parent
                         for name, old_value in self.parents[parent].items():
-                            new_value = getattr(parent, name)
+                            # this read only compares; it must not register the
+                            # parent as a dependency of an enclosing Computed
+                            outer, CURRENT_COMPUTED = CURRENT_COMPUTED, None
+                            try:
+                                new_value = getattr(parent, name)
+                            finally:
+                                CURRENT_COMPUTED = outer
                             if new_value != old_value:
                                 changed = True
                                 break  # we need to recalculate
